@@ -117,6 +117,7 @@ fn classify(case: &Case, obs: &mut Obs) {
         Kern::Gaussian(_) => "kernel_gaussian",
         Kern::Poly(..) => "kernel_polynomial",
     });
+    obs.class_if(matches!(case.kernel, Kern::Poly(_, d) if d.fract() != 0.0), "poly_fractional_degree");
     obs.class(match case.task {
         Task::CSvc { .. } => "task_c_svc",
         Task::NuSvc { .. } => "task_nu_svc",
@@ -322,6 +323,15 @@ fn judge(case: &Case, ex: &Extract, obs: &mut Obs, shrunk: bool) {
                      (r1 or r2 infinite: a class without free support vector)"
                 ),
             );
+            return;
+        }
+        // a kernel that is not positive semi-definite (polynomial with a fractional degree) can end with a
+        // negative margin r; the division then flips the sign of every coefficient. Counted, not judged.
+        let flipped = finite
+            && alpha.iter().zip(labels).all(|(a, l)| if *l { *a <= 0.0 } else { *a >= 0.0 })
+            && sum_abs > 0.0;
+        if flipped {
+            obs.skip("nu_svc_negative_margin");
             return;
         }
         let r = nu * n as f64 / sum_abs;
